@@ -17,8 +17,9 @@ import (
 //
 // Expiry is the only nondeterministic part: the statement merely *permits* an
 // entry to disappear once it "has expired".  The model therefore keeps an entry
-// for sure while its age is below guaranteedLife(expire) and lets it disappear
-// (or stay) at any later moment.  The tolerance (10 % + 3 s) is a harness choice
+// for sure while its age is below guaranteedLife(expire), lets it disappear (or
+// stay) afterwards, and - where the instant is observable, see upperLife - requires
+// it to be gone after upperLife(expire).  The tolerance (10 % + 3 s) is a harness choice
 // that is deliberately looser than the documented jitter of the cache
 // ("[0.95, 1.05] * seconds") plus the one second granularity of its timers.
 func guaranteedLife(expire time.Duration) time.Duration {
@@ -27,6 +28,16 @@ func guaranteedLife(expire time.Duration) time.Duration {
 		l = 0
 	}
 	return l
+}
+
+// upperLife is the other side of "has expired": NewCache documents the expiry
+// of an entry as its expire value with a jitter of [0.95, 1.05] and its timers
+// tick once a second, so an entry whose age (since the return of the call that
+// stored it last) exceeds 1.05 x expire + 3 s must be gone.  Only asserted where
+// the instant is observable: in single-client histories at every operation, in
+// concurrent ones after the clients are done and an idle period (cache_test.go).
+func upperLife(expire time.Duration) time.Duration {
+	return expire + expire/20 + 3*time.Second
 }
 
 const (
@@ -47,6 +58,9 @@ type cIn struct {
 	tRet       time.Duration
 	fromLoader bool // cGet miss that stands for "Take called its loader"
 	raceSet    bool // cDel whose call interval overlaps a Set of the same key by another client
+	// cSet issued while the timer of an earlier store of the same key may have been firing
+	// (markMayLoseTimer): the expiry task of that earlier entry may remove this store's timer
+	mayLoseTimer bool
 }
 
 type cOut struct {
@@ -59,6 +73,7 @@ type cEntry struct {
 	key, val int
 	setAt    time.Duration // earliest instant the entry's timer can have started
 	life     time.Duration // guaranteed life from setAt
+	dead     time.Duration // latest instant the entry may still be there (return of the store + upperLife)
 	racy     bool          // relaxed model only: an older timer of the same key may still delete it
 }
 
@@ -110,7 +125,7 @@ func (s cState) find(key int) int {
 
 // cacheModel carries the configuration of the modelled cache.
 type cacheModel struct {
-	limit   int  // 0: unlimited
+	limit int // 0: unlimited
 	// relaxed > 0 also accepts histories explained by the cache's asynchronous expiry task deleting
 	// by key whatever is stored by then (known findings; each level names one history class):
 	//  1: a Set over an entry whose timer was due is deleted by that timer
@@ -125,7 +140,42 @@ type cacheModel struct {
 	//       1 s tick, each of which makes TimingWheel.moveTask run the expiry at once and
 	//       asynchronously (delay < interval => GoSafe(execute))
 	relaxed int
-	steps   int  // number of step evaluations (budget of the linearizability search)
+	// upper: an operation invoked after an entry's latest possible expiry (cEntry.dead) must not
+	// find it any more (single-client histories only; class cache-entry-outlives-expiry)
+	upper bool
+	// upperRelaxed (with upper): also accepts that an entry never expires when it was stored while the
+	// timer of an earlier store of its key may have been firing (cIn.mayLoseTimer), or over such an
+	// entry: the expiry task deletes the data and removes "the key's timer" in two steps, and a store
+	// in between has its fresh timer removed (class neverExpiresAfterExpiry); only to NAME a history
+	upperRelaxed bool
+	steps        int // number of step evaluations (budget of the linearizability search)
+}
+
+const immortal = time.Duration(1<<63 - 1)
+
+const (
+	outlivesClass           = "cache-entry-outlives-expiry"
+	neverExpiresAfterExpiry = "cache-entry-never-expires-timer-removed-by-expiry-of-previous-entry"
+	neverExpiresAfterDel    = "cache-entry-never-expires-timer-removed-by-del-racing-set"
+)
+
+// markMayLoseTimer flags every store issued while an earlier store of the same key was in the
+// window in which its timer may fire (from the end of its guaranteed life to its latest expiry).
+func markMayLoseTimer(ops []cOp) {
+	for i := range ops {
+		s2 := &ops[i]
+		if s2.in.kind != cSet {
+			continue
+		}
+		for _, s1 := range ops {
+			if s1.in.kind != cSet || s1.in.key != s2.in.key || s1.call >= s2.call {
+				continue
+			}
+			if s2.in.tRet >= s1.in.tCall+guaranteedLife(s1.in.expire) && s2.in.tCall <= s1.in.tRet+upperLife(s1.in.expire) {
+				s2.in.mayLoseTimer = true
+			}
+		}
+	}
 }
 
 func without(ents []cEntry, drop int) []cEntry {
@@ -142,6 +192,18 @@ func without(ents []cEntry, drop int) []cEntry {
 // it produced the observed output; empty when the output is impossible.
 func (m *cacheModel) step(st cState, in cIn, out cOut) []cState {
 	m.steps++
+	if m.upper {
+		// entries that must have expired before this operation was invoked
+		var kept []cEntry
+		for _, e := range st.ents {
+			if in.tCall <= e.dead {
+				kept = append(kept, e)
+			}
+		}
+		if len(kept) != len(st.ents) {
+			st = cState{ents: kept, ghost: st.ghost}
+		}
+	}
 	// entries that may have expired by the time this operation took effect
 	var elig []int
 	for i, e := range st.ents {
@@ -191,7 +253,10 @@ func (m *cacheModel) step(st cState, in cIn, out cOut) []cState {
 				res = append(res, cState{ents: append([]cEntry{ents[idx]}, without(ents, idx)...), ghost: st.ghost})
 			}
 		case cSet:
-			ne := cEntry{key: in.key, val: in.val, setAt: in.tCall, life: guaranteedLife(in.expire)}
+			ne := cEntry{key: in.key, val: in.val, setAt: in.tCall, life: guaranteedLife(in.expire), dead: in.tRet + upperLife(in.expire)}
+			if m.upperRelaxed && (in.mayLoseTimer || (idx >= 0 && ents[idx].dead == immortal)) {
+				ne.dead = immortal
+			}
 			if idx >= 0 {
 				old := ents[idx]
 				if m.relaxed >= 1 && (old.racy || in.tRet-old.setAt >= old.life) {
